@@ -62,6 +62,10 @@ func c04Eligible(c *Command, o SearchOptions) bool {
 	return c04HasCrossTag(c) || isCrossPlatformTool(c.Command)
 }
 
+// c04Extra adds two entries to c04DB (set by the C04 harnesses only: other properties share
+// the 7-entry database and their floating-point queries grow with it)
+var c04Extra bool
+
 func c04DB(symbolicTag bool) *Database {
 	mk := func(cmd, desc string, plat []string, pipe bool) Command {
 		c := Command{Command: cmd, Description: desc, Platform: plat, Pipeline: pipe}
@@ -76,9 +80,10 @@ func c04DB(symbolicTag bool) *Database {
 		mk("aa | ee", "bb", nil, true),
 		mk("aa ff", "bb", []string{"Darwin", "PowerShell"}, false),
 		mk("aa gg", "bb", []string{"MACOS"}, false),
+	}
+	if c04Extra {
 		// a recognised cross-platform tool listed before a plain command with the same tag list
-		mk("git aa ii", "bb", []string{"freebsd"}, false),
-		mk("aa jj", "bb", []string{"freebsd"}, false),
+		cmds = append(cmds, mk("git aa ii", "bb", []string{"freebsd"}, false), mk("aa jj", "bb", []string{"freebsd"}, false))
 	}
 	if symbolicTag {
 		tag := verifString("tag", 5)
@@ -119,7 +124,9 @@ func c04Check(db *Database, res []SearchResult, o SearchOptions, tag string) {
 
 // lexical / NLP paths: the query word hits the index
 func c04Lexical(nlp, symbolicTag bool) {
+	c04Extra = true
 	db := c04DB(symbolicTag)
+	c04Extra = false
 	o := c04Options()
 	o.UseNLP = nlp
 	q := vWord("q", 2) // "aa" and "bb" hit every entry
@@ -166,7 +173,9 @@ func VerifHarness_C04_LegacyPipeline() {
 // cached answers: two requests through the cache layer whose filter options differ (or not);
 // the second answer must pass the filter of the second request
 func VerifHarness_C04_Cached() {
+	c04Extra = true
 	db := c04DB(false)
+	c04Extra = false
 	monitored := verifBool("monitored")
 	mdb := NewMonitoredDatabase(db)
 	o1 := SearchOptions{Limit: 20, NoCrossPlatform: verifBool("noCross1"), AllPlatforms: verifBool("all1")}
